@@ -225,6 +225,14 @@ func VerifH_gme() {
 	verifKnown("F-nonatomic", !invalid && vDialFail >= dials0) // a dial of this update is set to fail
 	uerr := gme.UpdateMultiEndpoints(upd)
 	verifReach("updated")
+	verifLockProbe = func() bool {
+		if gme.mu.TryLock() {
+			gme.mu.Unlock()
+			return true
+		}
+		return false
+	}
+	verifAssert(verifLocksFree(), "C15,C16: UpdateMultiEndpoints left a lock held")
 	dialFailed := vDialFail >= dials0 && vDialFail < vDials
 	verifAssert(verifImplies(invalid || dialFailed, uerr != nil), "C16: invalid options or a dial failure accepted")
 	if uerr == nil {
